@@ -7,7 +7,7 @@
 From Coq Require Import Lia.
 From JV Require Import Model.Base Model.GoTime Gen.TypeGo Model.Schema Model.Value
   Model.SoftRes Model.Wrapper Model.Resource Model.Equal
-  Proofs.C14Facts Proofs.SoftFacts Proofs.WrapperFacts Proofs.C17Facts Proofs.EqualFacts.
+  Proofs.C14Facts Proofs.SoftFacts Proofs.WrapperFacts Proofs.C17Facts Proofs.EqualFacts Proofs.C17Equal.
 
 (* Soft resources: after any history, Get returns the value most recently
    set, or the kind's zero value (nil pointer for nullable attributes, "" /
@@ -100,6 +100,20 @@ Theorem C17_equal_strict_partial_id : forall r1 r2,
   exists s, res_get r1 "id" = Ok (VStr s) /\ res_get r2 "id" = Ok (VStr s) /\ equal r1 r2 = Ok true.
 Proof. exact equal_strict_id. Qed.
 Print Assumptions C17_equal_strict_partial_id.
+
+(* Under the guard "both resources expose the same attributes and
+   relationships" (the part of the full statement that is true of the code):
+   Equal holds only between resources of the same type name whose every field
+   reads equal -- two nil values count as equal, two empty to-many
+   relationships too. *)
+Theorem C17_equal_sound_same_fields_partial : forall r1 r2,
+  sorted_attrs r1 = sorted_attrs r2 -> sorted_rels r1 = sorted_rels r2 ->
+  equal r1 r2 = Ok true ->
+  res_type_name r1 = res_type_name r2 /\
+  Forall (attr_agree r1 r2) (sorted_attrs r1) /\
+  Forall (rel_agree r1 r2) (sorted_rels r1).
+Proof. exact equal_sound_same_fields. Qed.
+Print Assumptions C17_equal_sound_same_fields_partial.
 
 Theorem C17_equal_sound_refuted :
   exists r1 r2, equal r1 r2 = Ok true /\ map fst (res_attrs r1) <> map fst (res_attrs r2).
